@@ -7,6 +7,7 @@ package verifsvc
 
 import (
 	"fmt"
+	"os"
 	"sort"
 	"testing"
 	"time"
@@ -192,10 +193,15 @@ func TestVerifC08(t *testing.T) {
 	var uid int64
 	base := time.Date(2024, 5, 10, 0, 0, 0, 0, time.UTC)
 	r0 := verifh.Rand("c08data", 0)
-	rows := genDataset(r0, verifh.Pick(500, 3000), 8, 3, base, &uid, true)
+	nRows := verifh.Pick(500, 3000)
+	if v := os.Getenv("VERIF_C08_ROWS"); v != "" { // experiment switch
+		fmt.Sscan(v, &nRows)
+	}
+	rows := genDataset(r0, nRows, 8, 3, base, &uid, true)
 	setupQueryWorld(t, sv, c08Bindings, rows)
 	nTrees := verifh.Pick(70, 1200)
 	noted := map[string]bool{}
+	sinceRenewal := map[string]int{}
 	for layout := 0; layout < 2; layout++ {
 		lname := []string{"memory-parts", "file-parts"}[layout]
 		if layout == 1 {
@@ -229,7 +235,7 @@ func TestVerifC08(t *testing.T) {
 				s.Sample(map[string]any{"criteria": tr.String(), "matching_rows": len(want), "rows_in_window": len(all)})
 			}
 			for _, b := range c08Bindings {
-				got, err := sv.selectUIDs(b, tr.proto(), tsRange(lo, hi), uint32(len(rows)+50))
+				got, err := sv.selectUIDs(b, tr.proto(), tsRange(lo, hi), uint32(len(rows)+5000))
 				if err != nil {
 					s.Count("c08.unsupported."+b.name, 1)
 					if !noted[b.name] {
@@ -243,6 +249,29 @@ func TestVerifC08(t *testing.T) {
 				want, rows := want, rows
 				if b.kind == "measure" {
 					want, rows = wantM, mrows
+				}
+				got = nonNegative(got)
+				sinceRenewal[b.name]++
+				if !sameIDs(got, want) && b.kind == "measure" && b.typ == databasev1.IndexRule_TYPE_INVERTED {
+					// Arbitration for the recorded finding "stale recycled term reader": the series index answers from
+					// the current snapshot of each segment's inverted index, and the index library keeps per-snapshot
+					// reusable term readers which an earlier query can leave registered twice. A write renews the
+					// snapshots; if the very same query is then answered exactly, the criteria semantics are right and the
+					// wrong answer came from snapshot-local state.
+					before := len(got)
+					if err := sv.renewSeriesIndexSnapshots(t, b, base); err != nil {
+						s.Inconclusive("c08: cannot renew the index snapshots of " + b.name + ": " + err.Error())
+					} else if got2, err2 := sv.selectUIDs(b, tr.proto(), tsRange(lo, hi), uint32(len(rows)+5000)); err2 == nil && sameIDs(nonNegative(got2), want) {
+						missing, extra := diffIDs(got, want)
+						s.Violation("c08:"+b.name+":answer-wrong-until-the-index-snapshot-is-renewed", map[string]any{"binding": b.name, "layout": lname, "criteria": tr.String(),
+							"window": lo.Format(time.RFC3339Nano) + ".." + hi.Format(time.RFC3339Nano), "expected": len(want), "returned_before_renewal": before, "returned_after_renewal": len(got2),
+							"queries_on_this_snapshot_before": sinceRenewal[b.name], "missing_by_series_and_day": breakdown(rows, missing, base), "unexpected_by_series_and_day": breakdown(rows, extra, base)})
+						s.Count("c08.snapshot_renewals."+b.name, 1)
+						sinceRenewal[b.name] = 0
+						continue
+					} else {
+						sinceRenewal[b.name] = 0
+					}
 				}
 				if !sameIDs(got, want) {
 					missing, extra := diffIDs(got, want)
@@ -269,6 +298,7 @@ func TestVerifC08(t *testing.T) {
 				continue
 			}
 			s.Count("c08.entity_under_or_queries", 1)
+			got = nonNegative(got)
 			if !sameIDs(got, want) {
 				missing, extra := diffIDs(got, want)
 				s.Violation("c08:"+b.name+":entity-tag-under-or", map[string]any{"criteria": tr.String(), "expected": len(want), "returned": len(got), "missing_rows": describeRows(rows, missing), "unexpected_rows": describeRows(rows, extra)})
@@ -276,6 +306,43 @@ func TestVerifC08(t *testing.T) {
 		}
 	}
 	s.Done()
+}
+
+func nonNegative(ids []int64) []int64 {
+	out := ids[:0:0]
+	for _, id := range ids {
+		if id >= 0 {
+			out = append(out, id)
+		}
+	}
+	return out
+}
+
+var renewals int
+
+// renewSeriesIndexSnapshots writes one data point of a brand-new series into every day segment of a measure (uid < 0,
+// ignored by the comparisons) and waits until it is queryable: each segment's series index then serves a new snapshot.
+func (sv *srv) renewSeriesIndexSnapshots(t *testing.T, b binding, base time.Time) error {
+	renewals++
+	id := fmt.Sprintf("renew%05d", renewals)
+	var pts []*measurev1.DataPointValue
+	for d := 0; d < 3; d++ {
+		q := qrow{id: id, uid: -int64(1000 + renewals*3 + d), svc: "renewal", labels: []string{"r"}, codes: []int64{-9}, ts: base.Add(time.Duration(d)*24*time.Hour + 23*time.Hour)}
+		pts = append(pts, &measurev1.DataPointValue{Timestamp: timestamppb.New(q.ts), TagFamilies: []*modelv1.TagFamilyForWrite{{Tags: q.writeTags()}}, Fields: []*modelv1.FieldValue{fInt(0)}})
+	}
+	acked, err := sv.writeMeasure("qm", b.name, pts)
+	if err != nil || countTrue(acked) != len(pts) {
+		return fmt.Errorf("renewal write: %v (%d/%d acked)", err, countTrue(acked), len(pts))
+	}
+	probe := (&tree{isLeaf: true, c: &cond{tag: "id", op: modelv1.Condition_BINARY_OP_EQ, str: id, kind: "str"}}).proto()
+	for i := 0; i < 100; i++ {
+		got, err := sv.selectUIDs(b, probe, tsRange(base.Add(-time.Hour), base.Add(5*24*time.Hour)), 100)
+		if err == nil && len(got) == 3 {
+			return nil
+		}
+		time.Sleep(100 * time.Millisecond)
+	}
+	return fmt.Errorf("renewal rows of %s not queryable after 10 s", id)
 }
 
 // breakdown counts the given rows per series and day (helps to tell a per-segment effect from a per-row one).
